@@ -383,6 +383,23 @@ impl DistanceResult {
     }
 }
 
+/// Verification hooks (compiled only with `--cfg pastel_verif`): expose the private
+/// nearest-neighbour bookkeeping so that arbitrary update histories can be applied.
+#[cfg(pastel_verif)]
+impl DistanceResult {
+    pub fn verif_new(
+        lab_values: &[Lab],
+        distance_metric: DistanceMetric,
+        num_fixed_colors: usize,
+    ) -> Self {
+        Self::new(lab_values, distance_metric, num_fixed_colors)
+    }
+
+    pub fn verif_update(&self, lab_values: &[Lab], changed_color: usize) -> Self {
+        self.update(lab_values, changed_color)
+    }
+}
+
 #[cfg(test)]
 mod tests {
     use super::{
